@@ -975,8 +975,17 @@ def run(ctx):
   # ---- single-thread cases: (A) exhaustive sweep, (B) random nested programs ------------------------------
   progs = [(p, 'corpus') for p in corpus_programs()] + [(p, 'sweep') for p in sweep_cases(nflags)]
   n_sweep = len([1 for _, k in progs if k == 'sweep'])
-  for _ in range(ctx.scale(500, 20000)):
+  for _ in range(ctx.scale(500, 30000)):
     progs.append((gen_prog(rng, cms), 'random'))
+  # the one hand-written manager (class detouring): every pair of mapping lists of length <= 2 over three classes, nested
+  pairs = [[a, b] for a in range(3) for b in range(3) if a != b]
+  lists = [[]] + [[x] for x in pairs] + [[x, y] for x in pairs for y in pairs]
+  det = [seq(['scope', 'detour', o, seq(['obs', 'detour'], ['scope', 'detour', i, ['obs', 'detour']], ['obs', 'detour'])], ['obs', 'detour'])
+         for o in lists for i in lists]
+  if not ctx.thorough:
+    det = rng.sample(det, 150)
+  ctx.extra['detour_small_scope'] = dict(exhaustive=bool(ctx.thorough), cases=len(det), what='outer x inner mapping lists of length <= 2 over 3 classes')
+  progs += [(p, 'detour-small-scope') for p in det]
   trs, impl_outs, descrs = [], [], []
   seen = set()
   for p, kind in progs:
@@ -996,12 +1005,15 @@ def run(ctx):
     ctx.hist('exception_escapes_program', out[2] if isinstance(out[2], int) else 'unexpected')
     for u in used:
       ctx.hist('managers', u)
+    ctx.hist('observations_per_program', min(len(out[1]), 20))
+    for g_ in real.last_getters:
+      ctx.hist('getters_observed', g_[0] if isinstance(g_, list) else g_)
   ctx.extra['sweep'] = dict(exhaustive=True, cases=n_sweep,
                             what='every manager x argument pool x outer state {unset, each pool value of the same and of each related manager} x {normal, exceptional} exit')
 
   # ---- (C) real threads under a deterministic event scheduler ------------------------------------------------
   tcases = []
-  for _ in range(ctx.scale(150, 4000)):
+  for _ in range(ctx.scale(150, 6000)):
     n = rng.choice([2, 2, 3, 4])
     r = rng.random()
     if r < 0.5:
